@@ -113,12 +113,16 @@ package gateway
 // unclaimed pre@ obligations in EnsureRoutes / Finalise)
 //@ requires two_services: r.conf.StableService != r.conf.CanaryService
 //@ requires separate: forall i :: 0 <= i && i < len(rules) ==> (forall j :: 0 <= j && j < len(rules) ==> (i != j ==> backing(rules[i].BackendRefs) != backing(rules[j].BackendRefs) || cap(rules[i].BackendRefs) == 0 || cap(rules[j].BackendRefs) == 0))
-//@ ensures restore_keeps_no_backendless_rule: weight != nil && *weight == -1 ==> (forall j :: 0 <= j && j < len(result) ==> len(result[j].BackendRefs) > 0)
+// (F19) restoring keeps every rule the user wrote: a rule that had no backendRefs to begin with (a redirect rule) is not a
+// rule the provider generated and stays; only rules emptied by taking the canary backend out are dropped.
+//@ ensures restore_keeps_user_rules_without_backends: weight != nil && *weight == -1 ==> (forall i :: 0 <= i && i < len(rules) ==> (len(old(rules[i].BackendRefs)) == 0 ==> (exists k :: 0 <= k && k < len(result) && len(result[k].BackendRefs) == 0 && result[k].Matches == old(rules[i].Matches))))
 //@ ensures restore_builds_nothing_new: weight != nil && *weight == -1 ==> #headerRoutes == 0 && #weightRoutes == 0 && len(result) <= len(rules)
 //@ ensures match_step_uses_header_routes: !(weight != nil && *weight == -1) && len(matches) > 0 ==> #headerRoutes == 1 && #weightRoutes == 0
 //@ ensures weight_step_uses_weight_routes: !(weight != nil && *weight == -1) && len(matches) == 0 ==> #weightRoutes == 1 && #headerRoutes == 0 && len(result) == len(rules)
 //@ loop 1 invariant range: -1 <= rangeindex && rangeindex < len(rules) && len(desired) <= rangeindex + 1 && weight != nil && *weight == -1 && #headerRoutes == 0 && #weightRoutes == 0
-//@ loop 1 invariant kept_have_backends: forall j :: 0 <= j && j < len(desired) ==> len(desired[j].BackendRefs) > 0
+//@ loop 1 invariant user_rules_without_backends_kept: forall i :: 0 <= i && i <= rangeindex ==> (len(atloop(rules[i].BackendRefs)) == 0 ==> (exists k :: 0 <= k && k < len(desired) && len(desired[k].BackendRefs) == 0 && desired[k].Matches == atloop(rules[i].Matches)))
+//@ loop 1 invariant rules_untouched: forall i :: 0 <= i && i < len(rules) ==> rules[i].BackendRefs == atloop(rules[i].BackendRefs) && rules[i].Matches == atloop(rules[i].Matches)
+//@ loop 1 invariant desired_fresh: (cap(desired) == 0 || fresh(desired)) && !fresh(rules)
 
 // ---------- provider protocol ----------
 // EnsureRoutes reports "verified" only when the HTTPRoute it just read already equals the desired rules (and then writes
